@@ -56,9 +56,19 @@ def run(rep, tier, seed, replay):
                     if ln >= 0:
                         ops.append("R " + vf.hexs(b"a" * ln))
                 cases.append(dict(pl=pl, ops=ops, failed=False, lines=[vf.unhex(o[2:]) for o in ops]))
+    for c in cases:
+        if replay and any(o.startswith("B ") for o in c["ops"]):
+            n = int(next(o for o in c["ops"] if o.startswith("B ")).split()[1])
+            c["lines"] = [b"b%d:1|c" % k for k in range(n)]
+            c["model_ops"] = ["R " + vf.hexs(l) for l in c["lines"]] + ["T"]
+    if not replay:
+        # bursts far beyond the relay's internal queue: nothing may be dropped while the target is healthy
+        for n, pl in ((1500, 1400), (3000, 64), (8100, 1400)) if tier == "quick" else ((1500, 1400), (3000, 64), (8100, 1400), (20000, 200), (1001, 16), (5000, 1400)):
+            lines = [b"b%d:1|c" % k for k in range(n)]
+            cases.append(dict(pl=pl, ops=["B %d" % n, "T"], model_ops=["R " + vf.hexs(l) for l in lines] + ["T"], failed=False, lines=lines))
     d = vf.tmpdir("C17")
     cf = f"{d}/relay.cases"
-    vf.write_lines(cf, [" | ".join([str(c["pl"])] + c["ops"]) for c in cases])
+    vf.write_lines(cf, [" | ".join([str(c["pl"])] + c.get("model_ops", c["ops"])) for c in cases])
     # the relay's counters live in the process-wide default registry, one series per target port: reading them gets
     # slower with every case a process has run, so the cases go through the harness in chunks of 1000, 8 at a time
     lines = [" | ".join([str(c["pl"])] + c["ops"]) for c in cases]
